@@ -8,6 +8,7 @@ CONSTANTS
   ServerRun = TRUE
   CasLoserErrors = TRUE
   ExitCheckAfterHandler = TRUE
+  CountAtAccept = TRUE
 INIT TraceInit
 NEXT TraceNext
 INVARIANTS Report
